@@ -1,3 +1,683 @@
-//! InstanceState layer (filled in below).
-pub fn generate(_seed: u64, _n: u64) {}
-pub fn replay() {}
+//! C15, contract-visible layer: histories over `InstanceState` (lookup_entry / create_entry /
+//! delete_entry / delete_prefix / iterator* / entry_*) with interrupts (re-entrant calls that
+//! commit or roll back) through the H1 hook wrappers; every result encoding is compared with
+//! an independent reference (ordered map + entry table + lock multiset + generation counter).
+//!
+//!   J <id> <ops>   ops separated by ';':
+//!     l<k> lookup_entry   c<k> create_entry   d<k> delete_entry   p<k> delete_prefix   t<k> iterator
+//!     n<i> iterator_next  x<i> iterator_delete  k<i> iterator key (size + read)
+//!     r<h> entry_read (size + read)  z<h> entry_size  w<h>,<off>,<hex> entry_write  s<h>,<n> entry_resize
+//!     [    interrupt: a re-entrant call starts on a fresh generation
+//!     ]1   the re-entrant call ends with success      ]0   it ends with failure (rolled back)
+//!   <i>/<h> index the lists of iterator / entry ids the outermost call has been handed so far
+//!   (ids stay in the list across interrupts, so stale ids get used); g<h>/G<i> use a forged id.
+use crate::{unx, x, KeyUniverse};
+use concordium_smart_contract_engine::{
+    v1::{
+        trie::{Loader, MutableState},
+        verif_hooks::VerifSuspended,
+        InstanceState,
+    },
+    InterpreterEnergy,
+};
+use hlib::{guarded, hex, Rng};
+use std::collections::{BTreeMap, VecDeque};
+use std::io::BufRead;
+
+const NONE: u64 = u64::MAX;
+const ERR: u64 = u64::MAX & !(1u64 << 62);
+const INVALID: u32 = u32::MAX;
+
+#[derive(Clone, Debug)]
+enum J {
+    Lookup(Vec<u8>),
+    Create(Vec<u8>),
+    Delete(Vec<u8>),
+    DeletePrefix(Vec<u8>),
+    Iter(Vec<u8>),
+    Next(usize),
+    IterDelete(usize),
+    IterKey(usize),
+    Read(usize),
+    Size(usize),
+    Write(usize, u32, Vec<u8>),
+    Resize(usize, u32),
+    ForgedEntry(usize),
+    ForgedIter(usize),
+    Interrupt,
+    End(bool),
+}
+
+impl J {
+    fn show(&self) -> String {
+        match self {
+            J::Lookup(k) => format!("l{}", x(k)),
+            J::Create(k) => format!("c{}", x(k)),
+            J::Delete(k) => format!("d{}", x(k)),
+            J::DeletePrefix(k) => format!("p{}", x(k)),
+            J::Iter(k) => format!("t{}", x(k)),
+            J::Next(i) => format!("n{}", i),
+            J::IterDelete(i) => format!("x{}", i),
+            J::IterKey(i) => format!("k{}", i),
+            J::Read(h) => format!("r{}", h),
+            J::Size(h) => format!("z{}", h),
+            J::Write(h, o, d) => format!("w{},{},{}", h, o, x(d)),
+            J::Resize(h, n) => format!("s{},{}", h, n),
+            J::ForgedEntry(h) => format!("g{}", h),
+            J::ForgedIter(i) => format!("G{}", i),
+            J::Interrupt => "[".into(),
+            J::End(b) => format!("]{}", *b as u8),
+        }
+    }
+
+    fn parse(s: &str) -> J {
+        let c = s.as_bytes()[0];
+        let a = &s[1..];
+        match c {
+            b'l' => J::Lookup(unx(a)),
+            b'c' => J::Create(unx(a)),
+            b'd' => J::Delete(unx(a)),
+            b'p' => J::DeletePrefix(unx(a)),
+            b't' => J::Iter(unx(a)),
+            b'n' => J::Next(a.parse().unwrap()),
+            b'x' => J::IterDelete(a.parse().unwrap()),
+            b'k' => J::IterKey(a.parse().unwrap()),
+            b'r' => J::Read(a.parse().unwrap()),
+            b'z' => J::Size(a.parse().unwrap()),
+            b'w' => {
+                let t: Vec<&str> = a.split(',').collect();
+                J::Write(t[0].parse().unwrap(), t[1].parse().unwrap(), unx(t[2]))
+            }
+            b's' => {
+                let t: Vec<&str> = a.split(',').collect();
+                J::Resize(t[0].parse().unwrap(), t[1].parse().unwrap())
+            }
+            b'g' => J::ForgedEntry(a.parse().unwrap()),
+            b'G' => J::ForgedIter(a.parse().unwrap()),
+            b'[' => J::Interrupt,
+            b']' => J::End(a == "1"),
+            _ => panic!("bad J op {}", s),
+        }
+    }
+}
+
+// ------------------------------------------------------------------------------------ reference
+
+#[derive(Clone, Default)]
+struct RTrie {
+    map: BTreeMap<Vec<u8>, usize>,
+    ents: Vec<Option<Vec<u8>>>,
+    /// prefixes locked in this trie generation (multiset); survives the call that took them
+    locks: Vec<Vec<u8>>,
+}
+
+#[derive(Default)]
+struct RInst {
+    gen: u32,
+    changed: bool,
+    emap: Vec<usize>,
+    /// prefix, remaining keys, current key (None = unknown after exhaustion)
+    iters: Vec<Option<(Vec<u8>, VecDeque<Vec<u8>>, Option<Vec<u8>>)>>,
+}
+
+fn enc(gen: u32, idx: usize) -> u64 { (u64::from(gen) << 32) | idx as u64 }
+
+impl RInst {
+    fn entry(&self, t: &RTrie, id: u64) -> Option<usize> {
+        let (g, i) = ((id >> 32) as u32, (id & 0xffff_ffff) as usize);
+        if g != self.gen {
+            return None;
+        }
+        let e = *self.emap.get(i)?;
+        if t.ents.get(e)?.is_some() { Some(e) } else { None }
+    }
+
+    fn step(&mut self, t: &mut RTrie, op: &J, eids: &mut Vec<u64>, iids: &mut Vec<u64>) -> String {
+        let pick = |v: &Vec<u64>, i: usize| -> Option<u64> { v.get(i).copied() };
+        match op {
+            J::Lookup(k) => match t.map.get(k).copied() {
+                Some(e) => {
+                    let id = enc(self.gen, self.emap.len());
+                    self.emap.push(e);
+                    eids.push(id);
+                    format!("{:x}", id)
+                }
+                None => format!("{:x}", NONE),
+            },
+            J::Create(k) => {
+                self.changed = true;
+                if t.locks.iter().any(|p| k.starts_with(p)) {
+                    return format!("{:x}", NONE);
+                }
+                let e = match t.map.get(k).copied() {
+                    Some(e) => {
+                        t.ents[e] = Some(vec![]);
+                        e
+                    }
+                    None => {
+                        let e = t.ents.len();
+                        t.ents.push(Some(vec![]));
+                        t.map.insert(k.clone(), e);
+                        e
+                    }
+                };
+                let id = enc(self.gen, self.emap.len());
+                self.emap.push(e);
+                eids.push(id);
+                format!("{:x}", id)
+            }
+            J::Delete(k) => {
+                self.changed = true;
+                if t.map.is_empty() {
+                    return "1".into();
+                }
+                if t.locks.iter().any(|p| k.starts_with(p)) {
+                    return "0".into();
+                }
+                match t.map.remove(k) {
+                    Some(e) => {
+                        t.ents[e] = None;
+                        "2".into()
+                    }
+                    None => "1".into(),
+                }
+            }
+            J::DeletePrefix(k) => {
+                self.changed = true;
+                if t.map.is_empty() {
+                    return "1".into();
+                }
+                if t.locks.iter().any(|p| k.starts_with(p) || p.starts_with(k)) {
+                    return "0".into();
+                }
+                let ks: Vec<Vec<u8>> = t.map.keys().filter(|q| q.starts_with(k)).cloned().collect();
+                if ks.is_empty() {
+                    return "1".into();
+                }
+                for q in ks {
+                    let e = t.map.remove(&q).unwrap();
+                    t.ents[e] = None;
+                }
+                "2".into()
+            }
+            J::Iter(k) => {
+                let ks: VecDeque<Vec<u8>> = t.map.keys().filter(|q| q.starts_with(k)).cloned().collect();
+                if ks.is_empty() {
+                    return format!("{:x}", NONE);
+                }
+                t.locks.push(k.clone());
+                let id = enc(self.gen, self.iters.len());
+                self.iters.push(Some((k.clone(), ks, Some(k.clone()))));
+                iids.push(id);
+                format!("{:x}", id)
+            }
+            J::Next(_) | J::ForgedIter(_) => {
+                let id = match op {
+                    J::Next(i) => match pick(iids, *i) {
+                        Some(id) => id,
+                        None => return "skip".into(),
+                    },
+                    J::ForgedIter(i) => forged(pick(iids, *i), *i),
+                    _ => unreachable!(),
+                };
+                let (g, i) = ((id >> 32) as u32, (id & 0xffff_ffff) as usize);
+                if g != self.gen {
+                    return format!("{:x}", ERR);
+                }
+                match self.iters.get_mut(i) {
+                    Some(Some((_, rem, cur))) => match rem.pop_front() {
+                        Some(k) => {
+                            let e = t.map[&k];
+                            *cur = Some(k);
+                            let eid = enc(self.gen, self.emap.len());
+                            self.emap.push(e);
+                            eids.push(eid);
+                            format!("{:x}", eid)
+                        }
+                        None => {
+                            *cur = None;
+                            format!("{:x}", NONE)
+                        }
+                    },
+                    _ => format!("{:x}", ERR),
+                }
+            }
+            J::IterDelete(i) => {
+                let id = match pick(iids, *i) {
+                    Some(id) => id,
+                    None => return "skip".into(),
+                };
+                let (g, i) = ((id >> 32) as u32, (id & 0xffff_ffff) as usize);
+                if g != self.gen {
+                    return format!("{}", INVALID);
+                }
+                match self.iters.get_mut(i) {
+                    Some(slot @ Some(_)) => {
+                        let p = slot.as_ref().unwrap().0.clone();
+                        *slot = None;
+                        if let Some(pos) = t.locks.iter().position(|q| q == &p) {
+                            t.locks.remove(pos);
+                        }
+                        "1".into()
+                    }
+                    Some(None) => "0".into(),
+                    None => format!("{}", INVALID),
+                }
+            }
+            J::IterKey(i) => {
+                let id = match pick(iids, *i) {
+                    Some(id) => id,
+                    None => return "skip".into(),
+                };
+                let (g, i) = ((id >> 32) as u32, (id & 0xffff_ffff) as usize);
+                if g != self.gen {
+                    return "invalid".into();
+                }
+                match self.iters.get(i) {
+                    Some(Some((_, _, Some(k)))) => hex(k),
+                    Some(Some((_, _, None))) => "?".into(),
+                    _ => "invalid".into(),
+                }
+            }
+            J::Read(_) | J::Size(_) | J::ForgedEntry(_) => {
+                let id = match op {
+                    J::Read(h) | J::Size(h) => match pick(eids, *h) {
+                        Some(id) => id,
+                        None => return "skip".into(),
+                    },
+                    J::ForgedEntry(h) => forged(pick(eids, *h), *h),
+                    _ => unreachable!(),
+                };
+                match self.entry(t, id) {
+                    Some(e) => {
+                        let v = t.ents[e].as_ref().unwrap();
+                        if let J::Size(_) = op { format!("{}", v.len()) } else { hex(v) }
+                    }
+                    None => "invalid".into(),
+                }
+            }
+            J::Write(h, off, data) => {
+                let id = match pick(eids, *h) {
+                    Some(id) => id,
+                    None => return "skip".into(),
+                };
+                self.changed = true;
+                match self.entry(t, id) {
+                    Some(e) => {
+                        let v = t.ents[e].as_mut().unwrap();
+                        let off = *off as usize;
+                        if off <= v.len() {
+                            let end = off + data.len();
+                            if v.len() < end {
+                                v.resize(end, 0);
+                            }
+                            v[off..end].copy_from_slice(data);
+                            format!("{}", data.len())
+                        } else {
+                            "0".into()
+                        }
+                    }
+                    None => format!("{}", INVALID),
+                }
+            }
+            J::Resize(h, n) => {
+                let id = match pick(eids, *h) {
+                    Some(id) => id,
+                    None => return "skip".into(),
+                };
+                self.changed = true;
+                match self.entry(t, id) {
+                    Some(e) => {
+                        t.ents[e].as_mut().unwrap().resize(*n as usize, 0);
+                        "1".into()
+                    }
+                    None => format!("{}", INVALID),
+                }
+            }
+            J::Interrupt | J::End(_) => unreachable!(),
+        }
+    }
+}
+
+/// A forged id derived from a real one: another generation, or an index nobody was given.
+fn forged(real: Option<u64>, salt: usize) -> u64 {
+    let base = real.unwrap_or(0);
+    match salt % 3 {
+        0 => base ^ (1u64 << 32),              // neighbouring generation
+        1 => (base & !0xffff_ffff) | 0x00ff_fff0, // index far outside the table
+        _ => base.wrapping_add(7u64 << 32),
+    }
+}
+
+// ------------------------------------------------------------------------------- implementation
+
+type Inst<'a, 'b> = InstanceState<'a, Loader<&'b [u8]>>;
+
+fn impl_step(inst: &mut Inst, op: &J, eids: &mut Vec<u64>, iids: &mut Vec<u64>) -> String {
+    let mut energy = InterpreterEnergy { energy: 1 << 50 };
+    let pick = |v: &Vec<u64>, i: usize| -> Option<u64> { v.get(i).copied() };
+    let read_entry = |inst: &mut Inst, id: u64, size_only: bool| -> String {
+        let n = inst.verif_entry_size(id);
+        if n == INVALID {
+            // reading must agree
+            let mut buf = [0u8; 4];
+            return if inst.verif_entry_read(id, &mut buf, 0) == INVALID { "invalid".into() } else { "SIZE-READ-DISAGREE".into() };
+        }
+        if size_only {
+            return format!("{}", n);
+        }
+        let mut buf = vec![0u8; n as usize + 3];
+        let got = inst.verif_entry_read(id, &mut buf, 0);
+        if got != n {
+            return format!("READ-LEN-{}-{}", got, n);
+        }
+        // a read at an offset returns the suffix
+        if n > 1 {
+            let mut b2 = vec![0u8; n as usize];
+            let g2 = inst.verif_entry_read(id, &mut b2, 1);
+            if g2 != n - 1 || b2[..g2 as usize] != buf[1..n as usize] {
+                return "READ-OFFSET-DISAGREE".into();
+            }
+        }
+        hex(&buf[..n as usize])
+    };
+    match op {
+        J::Lookup(k) => {
+            let id = inst.verif_lookup_entry(k);
+            if id != NONE {
+                eids.push(id);
+            }
+            format!("{:x}", id)
+        }
+        J::Create(k) => match inst.verif_create_entry(k) {
+            Ok(id) => {
+                if id != NONE {
+                    eids.push(id);
+                }
+                format!("{:x}", id)
+            }
+            Err(_) => "error".into(),
+        },
+        J::Delete(k) => inst.verif_delete_entry(k).map(|v| v.to_string()).unwrap_or("error".into()),
+        J::DeletePrefix(k) => inst.verif_delete_prefix(&mut energy, k).map(|v| v.to_string()).unwrap_or("error".into()),
+        J::Iter(k) => {
+            let id = inst.verif_iterator(k);
+            if id != NONE && id != ERR {
+                iids.push(id);
+            }
+            format!("{:x}", id)
+        }
+        J::Next(_) | J::ForgedIter(_) => {
+            let id = match op {
+                J::Next(i) => match pick(iids, *i) {
+                    Some(id) => id,
+                    None => return "skip".into(),
+                },
+                J::ForgedIter(i) => forged(pick(iids, *i), *i),
+                _ => unreachable!(),
+            };
+            match inst.verif_iterator_next(&mut energy, id) {
+                Ok(e) => {
+                    if e != NONE && e != ERR {
+                        eids.push(e);
+                    }
+                    format!("{:x}", e)
+                }
+                Err(_) => "error".into(),
+            }
+        }
+        J::IterDelete(i) => match pick(iids, *i) {
+            Some(id) => inst.verif_iterator_delete(&mut energy, id).map(|v| v.to_string()).unwrap_or("error".into()),
+            None => "skip".into(),
+        },
+        J::IterKey(i) => match pick(iids, *i) {
+            Some(id) => {
+                let n = inst.verif_iterator_key_size(id);
+                if n == INVALID {
+                    let mut b = [0u8; 2];
+                    return if inst.verif_iterator_key_read(id, &mut b, 0) == INVALID { "invalid".into() } else { "KEY-DISAGREE".into() };
+                }
+                let mut buf = vec![0u8; n as usize];
+                let got = inst.verif_iterator_key_read(id, &mut buf, 0);
+                if got != n { format!("KEY-LEN-{}-{}", got, n) } else { hex(&buf) }
+            }
+            None => "skip".into(),
+        },
+        J::Read(h) => match pick(eids, *h) {
+            Some(id) => read_entry(inst, id, false),
+            None => "skip".into(),
+        },
+        J::Size(h) => match pick(eids, *h) {
+            Some(id) => read_entry(inst, id, true),
+            None => "skip".into(),
+        },
+        J::ForgedEntry(h) => read_entry(inst, forged(pick(eids, *h), *h), false),
+        J::Write(h, off, data) => match pick(eids, *h) {
+            Some(id) => inst.verif_entry_write(&mut energy, id, data, *off).map(|v| v.to_string()).unwrap_or("error".into()),
+            None => "skip".into(),
+        },
+        J::Resize(h, n) => match pick(eids, *h) {
+            Some(id) => inst.verif_entry_resize(&mut energy, id, *n).map(|v| v.to_string()).unwrap_or("error".into()),
+            None => "skip".into(),
+        },
+        J::Interrupt | J::End(_) => unreachable!(),
+    }
+}
+
+enum SegEnd {
+    Interrupt(VerifSuspended),
+    Done(bool),
+}
+
+struct Ctx<'o> {
+    ops: &'o [J],
+    pos: usize,
+    outs: Vec<String>,
+    exp: Vec<String>,
+}
+
+/// One uninterrupted stretch of a call: from (re)entry to the next interrupt or the end of the call.
+fn segment(
+    st: &mut MutableState,
+    resume: Option<(VerifSuspended, bool)>,
+    cx: &mut Ctx,
+    rt: &mut RTrie,
+    ri: &mut RInst,
+    eids: &mut Vec<u64>,
+    iids: &mut Vec<u64>,
+    reids: &mut Vec<u64>,
+    riids: &mut Vec<u64>,
+) -> (SegEnd, bool) {
+    let store: &[u8] = &[];
+    let mut loader = Loader::new(store);
+    let inner = st.get_inner(&mut loader).clone();
+    let mut inst: Inst = match resume {
+        None => InstanceState::new(Loader::new(store), &inner),
+        Some((s, updated)) => InstanceState::verif_resume(s, updated, Loader::new(store), &inner),
+    };
+    loop {
+        if cx.pos >= cx.ops.len() {
+            return (SegEnd::Done(true), inst.verif_changed());
+        }
+        let op = cx.ops[cx.pos].clone();
+        cx.pos += 1;
+        match op {
+            J::Interrupt => {
+                cx.outs.push("[".into());
+                cx.exp.push("[".into());
+                let changed = inst.verif_changed();
+                return (SegEnd::Interrupt(inst.verif_suspend()), changed);
+            }
+            J::End(commit) => {
+                cx.outs.push("]".into());
+                cx.exp.push("]".into());
+                return (SegEnd::Done(commit), inst.verif_changed());
+            }
+            _ => {
+                let got = impl_step(&mut inst, &op, eids, iids);
+                let exp = ri.step(rt, &op, reids, riids);
+                // after exhaustion the key of an iterator is unspecified
+                cx.outs.push(if exp == "?" { "?".into() } else { got });
+                cx.exp.push(exp);
+            }
+        }
+    }
+}
+
+/// A whole call (outermost or re-entrant). Returns (commit, changed).
+fn run_call(st: &mut MutableState, cx: &mut Ctx, rt: &mut RTrie, depth: usize) -> (bool, bool) {
+    let mut ri = RInst::default();
+    let (mut eids, mut iids, mut reids, mut riids) = (vec![], vec![], vec![], vec![]);
+    let mut resume: Option<(VerifSuspended, bool)> = None;
+    let mut changed_any = false;
+    loop {
+        let (end, changed) = segment(st, resume.take(), cx, rt, &mut ri, &mut eids, &mut iids, &mut reids, &mut riids);
+        changed_any |= changed;
+        match end {
+            SegEnd::Done(commit) => return (commit, changed_any),
+            SegEnd::Interrupt(susp) => {
+                let store: &[u8] = &[];
+                let mut loader = Loader::new(store);
+                let mut st2 = st.make_fresh_generation(&mut loader);
+                let mut rt2 = RTrie { map: rt.map.clone(), ents: rt.ents.clone(), locks: vec![] };
+                let (commit, inner_changed) = if depth < 3 { run_call(&mut st2, cx, &mut rt2, depth + 1) } else { (false, false) };
+                let updated = commit && inner_changed;
+                if updated {
+                    *st = st2;
+                    *rt = rt2;
+                    ri.gen += 1;
+                    ri.emap.clear();
+                    ri.iters.clear();
+                    changed_any = true;
+                }
+                ri.changed = false;
+                resume = Some((susp, updated));
+            }
+        }
+    }
+}
+
+fn run(ops: &[J]) -> (Vec<String>, Vec<String>, Option<String>) {
+    let mut cx = Ctx { ops, pos: 0, outs: vec![], exp: vec![] };
+    let res = guarded(|| {
+        let store: &[u8] = &[];
+        let mut loader = Loader::new(store);
+        let mut st = MutableState::initial_state();
+        let _ = st.get_inner(&mut loader);
+        let mut rt = RTrie::default();
+        run_call(&mut st, &mut cx, &mut rt, 0);
+    });
+    (cx.outs, cx.exp, res.err())
+}
+
+fn gen_ops(rng: &mut Rng) -> Vec<J> {
+    let uni = KeyUniverse::new(rng);
+    let cap = if rng.chance(1, 4) { 250 } else { 60 };
+    let n = 1 + rng.below(cap) as usize;
+    let mut ops = Vec::new();
+    let mut depth = 0usize;
+    // rough counts of ids handed out at the current level (stack)
+    let mut counts: Vec<(usize, usize)> = vec![(0, 0)];
+    for _ in 0..n {
+        let (ne, ni) = *counts.last().unwrap();
+        let idx = |rng: &mut Rng, n: usize| -> usize { if n == 0 { 0 } else if rng.chance(1, 2) { n - 1 - rng.below(n.min(3) as u64) as usize } else { rng.below(n as u64 + 1) as usize } };
+        let op = match rng.below(100) {
+            0..=9 => J::Lookup(uni.key(rng)),
+            10..=27 => J::Create(uni.key(rng)),
+            28..=35 => J::Delete(uni.key(rng)),
+            36..=40 => J::DeletePrefix(uni.prefix(rng)),
+            41..=50 => J::Iter(uni.prefix(rng)),
+            51..=62 => J::Next(idx(rng, ni)),
+            63..=66 => J::IterDelete(idx(rng, ni)),
+            67..=69 => J::IterKey(idx(rng, ni)),
+            70..=76 => J::Read(idx(rng, ne)),
+            77..=78 => J::Size(idx(rng, ne)),
+            79..=86 => {
+                let off = *rng.pick(&[0u32, 0, 1, 2, 5, 64, 65]);
+                let len = *rng.pick(&[0usize, 1, 3, 64, 65, 10]);
+                J::Write(idx(rng, ne), off, rng.bytes(len))
+            }
+            87..=89 => J::Resize(idx(rng, ne), *rng.pick(&[0u32, 1, 2, 64, 65, 300])),
+            90 => J::ForgedEntry(idx(rng, ne)),
+            91 => J::ForgedIter(idx(rng, ni)),
+            92..=95 => {
+                if depth < 2 {
+                    depth += 1;
+                    counts.push((0, 0));
+                    J::Interrupt
+                } else {
+                    J::Lookup(uni.key(rng))
+                }
+            }
+            _ => {
+                if depth > 0 {
+                    depth -= 1;
+                    counts.pop();
+                    J::End(rng.chance(2, 3))
+                } else {
+                    J::Create(uni.key(rng))
+                }
+            }
+        };
+        let op = match op {
+            J::Next(_) | J::IterDelete(_) | J::IterKey(_) if ni == 0 && rng.chance(5, 6) => J::Iter(uni.prefix(rng)),
+            J::Read(_) | J::Size(_) | J::Write(..) | J::Resize(..) if ne == 0 && rng.chance(5, 6) => J::Create(uni.key(rng)),
+            o => o,
+        };
+        match &op {
+            J::Create(_) => counts.last_mut().unwrap().0 += 1,
+            J::Iter(_) => counts.last_mut().unwrap().1 += 1,
+            _ => {}
+        }
+        ops.push(op);
+    }
+    while depth > 0 {
+        depth -= 1;
+        ops.push(J::End(rng.chance(1, 2)));
+        // and a few operations of the resumed caller using its old ids
+        for _ in 0..rng.below(6) {
+            ops.push(match rng.below(4) {
+                0 => J::Read(rng.below(4) as usize),
+                1 => J::Next(rng.below(3) as usize),
+                2 => J::Write(rng.below(4) as usize, 0, rng.bytes(2)),
+                _ => J::IterDelete(rng.below(3) as usize),
+            });
+        }
+    }
+    ops
+}
+
+fn emit(id: &str, ops: &[J]) {
+    let (outs, exp, panic) = run(ops);
+    println!("J {} {}", id, ops.iter().map(|o| o.show()).collect::<Vec<_>>().join(";"));
+    println!("R {} {}", id, outs.join(";"));
+    let first_bad = outs.iter().zip(exp.iter()).position(|(a, b)| a != b).map(|i| i as i64).unwrap_or(if outs.len() != exp.len() { outs.len().min(exp.len()) as i64 } else { -1 });
+    let ok = first_bad < 0 && panic.is_none();
+    println!(
+        "O {} {}",
+        id,
+        serde_json::json!({"ok": ok, "first_bad": first_bad,
+            "exp": if first_bad >= 0 { exp.get(first_bad as usize).cloned() } else { None },
+            "got": if first_bad >= 0 { outs.get(first_bad as usize).cloned() } else { None },
+            "panic": panic, "len": ops.len()})
+    );
+}
+
+pub fn generate(seed: u64, n: u64) {
+    let mut rng = Rng::new(seed ^ 0x1157);
+    for i in 0..n {
+        let ops = gen_ops(&mut rng);
+        emit(&format!("j{}", i), &ops);
+    }
+}
+
+pub fn replay() {
+    for line in std::io::stdin().lock().lines() {
+        let line = line.unwrap();
+        if let Some(rest) = line.strip_prefix("J ") {
+            let (id, body) = rest.split_once(' ').unwrap_or((rest, ""));
+            let ops: Vec<J> = body.split(';').filter(|s| !s.is_empty()).map(J::parse).collect();
+            emit(id, &ops);
+        }
+    }
+}
